@@ -19,6 +19,23 @@ def run(ctx, broken):
     progs = ["pub 5;w 7;gadd 0 1 1 0 3 - $0 $1 #0;pub 9;bool #1",
              "w 2d;rangebits 7 $0;w 33;xor 2 $0 $1;pub 0",
              sized_program(rng, 16, (4, 15)).src()]
+    # LARGE domains with a wire column that is (almost) unused: only the dummy gate of Composer::initialized touches the
+    # fourth wire, the third wire only carries gate outputs. A mask that is skipped for a sparse / constant column shows as a
+    # commitment or evaluation shared by two independently randomised proofs.
+    def sparse_program(gates):
+        ops, regs, n = [], 0, 4
+        while n < gates:
+            k = rng.below(3)
+            if k == 0:
+                ops.append("pub %s" % hx(rng.fe())); regs += 1; n += 1
+            elif k == 1:
+                ops.append("w %s" % hx(rng.below(2))); ops.append("bool $%d" % regs); regs += 1; n += 1
+            else:
+                ops.append("w %s" % hx(rng.fe())); ops.append("w %s" % hx(rng.fe()))
+                ops.append("gadd 1 2 3 0 5 - $%d $%d #0" % (regs, regs + 1)); regs += 3; n += 1
+        return ";".join(ops)
+    big = [sparse_program(g) for g in ((600,) if ctx.tier == "quick" else (300, 600, 1100))]
+    progs += big
     if ctx.tier != "quick":
         progs += [sized_program(rng, 8 + rng.below(40), (4,)).src() for _ in range(10)]
     pairs = []
@@ -26,7 +43,7 @@ def run(ctx, broken):
         base = [draw_hex(rng) for _ in range(14)]
         # individual draws chosen freely: 0, 1, r-1
         variants = [("random", base)]
-        for i in (range(14) if ctx.tier != "quick" else [0, 3, 8, 10, 11, 13]):
+        for i in ([] if src in big else (range(14) if ctx.tier != "quick" else [0, 3, 8, 10, 11, 13])):
             for sp in ("zero", "one", "minus1"):
                 if ctx.tier == "quick" and sp == "minus1" and i % 2:
                     continue
@@ -35,7 +52,7 @@ def run(ctx, broken):
         other = [draw_hex(rng) for _ in range(14)]
         variants.append(("random-2", other))
         for name, d in variants:
-            cs.append({"line": prove_line(srs, 600, b"zk", d, 3, src), "tags": ["stream:" + name.split("=")[-1] if "=" in name else "stream:" + name],
+            cs.append({"line": prove_line(srs, 2100 if src in big else 600, b"zk", d, 3, src), "tags": ["stream:" + name.split("=")[-1] if "=" in name else "stream:" + name],
                        "expect_proof": True, "group": src, "name": name})
     r.run(cs)
     # implementation-vs-property: draw count and "no shared commitment / evaluation" between proofs of the same witness
